@@ -15,8 +15,9 @@ import sys
 import time
 
 ROOT = os.path.dirname(os.path.dirname(os.path.abspath(__file__)))
-WT = "/tmp/confirm_wt"
-BLD = "/tmp/confirm_bld"
+SLOT = os.environ.get("CONFIRM_SLOT", "")   # several confirmations can run side by side, each with its own scratch dirs
+WT = "/tmp/confirm_wt" + SLOT
+BLD = "/tmp/confirm_bld" + SLOT
 
 
 def sh(cmd, cwd=None, timeout=3600, env=None):
